@@ -139,6 +139,24 @@ Definition run_check (a : sx) : sx :=
   | _ => sx_err "c19.check"
   end.
 
+(* c19.hist: (secret ltproof ltpayload domain now concurrent (call ...)) with
+   call = (exec proof hmac b64 boc lib ext verify): the calls are made on ONE Server value by
+   the implementation; the model's answer for each call is the answer for that call alone
+   (Model.TonConnect.run_history; C19_history_independent) *)
+Definition run_hist (a : sx) : sx :=
+  match a with
+  | SL [secret; ltp; ltpl; dom; now; SB conc; SL calls] =>
+      let one (c : sx) : sx :=
+        match c with
+        | SL [ex; pr; ht; b64o; bo; lo; eo; vt] =>
+            run_check (SL [secret; ltp; ltpl; dom; ex; pr; now; ht; b64o; bo; lo; eo; vt])
+        | _ => sx_err "c19.hist call"
+        end in
+      let rs := snd (run_history (fun (st : unit) c => (st, one c)) tt calls) in
+      SL (if conc then rs ++ rs else rs)
+  | _ => sx_err "c19.hist"
+  end.
+
 (* c19.clock: (ltproof ltpayload dproof dpayload usegen): everything is built by the model at
    a nominal clock; the implementation does the same at the real clock.  The signature is
    honest by construction (verify = true), the HMAC is any fixed function. *)
@@ -172,5 +190,6 @@ Definition run (name : string) (a : sx) : sx :=
   else if is "c19.pubkey" then run_pubkey a
   else if is "c19.stateinit" then run_stateinit a
   else if is "c19.check" then run_check a
+  else if is "c19.hist" then run_hist a
   else if is "c19.clock" then run_clock a
   else sx_err "unknown case kind".
